@@ -15,10 +15,45 @@ from .core import AnalysisError, FuncInfo, Module, canon, dotted, names_loaded, 
 
 
 class _Mod:
-    def __init__(self, name='<template>'):
+    def __init__(self, name='<template>', tree=None):
         self.name = name
         self.relpath = name
         self.imports = {}
+        self.tree = tree
+
+
+def module_constants(mod, _depth=0):
+    """Module-level NAME = <number | string | -number> bindings (single assignment)."""
+    out = {}
+    tree = getattr(mod, 'tree', None)
+    if tree is None:
+        return out
+    counts = {}
+    for s in tree.body:
+        if isinstance(s, ast.Assign) and len(s.targets) == 1 and isinstance(s.targets[0], ast.Name):
+            counts[s.targets[0].id] = counts.get(s.targets[0].id, 0) + 1
+            v = s.value
+            if isinstance(v, ast.Constant) and isinstance(v.value, (int, float, str)) and not isinstance(v.value, bool):
+                out[s.targets[0].id] = v
+            elif isinstance(v, ast.UnaryOp) and isinstance(v.op, ast.USub) and isinstance(v.operand, ast.Constant):
+                out[s.targets[0].id] = v
+        elif isinstance(s, ast.AnnAssign) and isinstance(s.target, ast.Name) and isinstance(s.value, ast.Constant) and isinstance(s.value.value, (int, float, str)):
+            counts[s.target.id] = counts.get(s.target.id, 0) + 1
+            out[s.target.id] = s.value
+    out = {k: v for k, v in out.items() if counts.get(k) == 1}
+    # constants imported from other repo modules
+    repo = getattr(mod, 'repo', None)
+    if repo is not None and _depth < 2:
+        for alias, target in getattr(mod, 'imports', {}).items():
+            if alias in out or '.' not in target:
+                continue
+            m2, nm = target.rsplit('.', 1)
+            other = repo.modules.get(m2)
+            if other is not None and other is not mod:
+                oc = module_constants(other, _depth + 1)
+                if nm in oc:
+                    out[alias] = oc[nm]
+    return out
 
 
 def template_func(source, name=None, closure=False):
@@ -28,7 +63,7 @@ def template_func(source, name=None, closure=False):
         fns = [f for f in fns if f.name == name]
     if len(fns) != 1:
         raise AnalysisError('template must define exactly one function')
-    fi = FuncInfo(_Mod(), None, fns[0].name, fns[0], '<template>:' + fns[0].name)
+    fi = FuncInfo(_Mod(tree=tree), None, fns[0].name, fns[0], '<template>:' + fns[0].name)
     fi.closure = closure
     return fi
 
@@ -185,6 +220,18 @@ def _collect(fi, inline_depth=60, keep=()):
                     effects.append(Effect('call', list(ctx), None, inl(s.value, s), s))
                 elif isinstance(s.value, (ast.Yield, ast.YieldFrom)) and s.value.value is not None:
                     effects.append(Effect('yield', list(ctx), None, inl(s.value.value, s), s))
+    # parameter defaults and memoising decorators are part of the behaviour
+    a_ = fi.node.args
+    pos = a_.posonlyargs + a_.args
+    for p_, d_ in zip(pos[len(pos) - len(a_.defaults):], a_.defaults):
+        effects.append(Effect('default:%d' % pos.index(p_), [], None, d_, fi.node))
+    for p_, d_ in zip(a_.kwonlyargs, a_.kw_defaults):
+        if d_ is not None:
+            effects.append(Effect('default:' + p_.arg, [], None, d_, fi.node))
+    for d_ in fi.node.decorator_list:
+        nm = dotted(d_.func if isinstance(d_, ast.Call) else d_) or ''
+        if nm.split('.')[-1] in ('lru_cache', 'cache', 'cached_property', 'memoize', 'memoized'):
+            effects.append(Effect('decorator', [], None, d_, fi.node))
     visit(fi.node.body, [])
     # binds are effects only for locals that survive inlining somewhere (loop-carried, mutated, multiply defined)
     local_names = {d.name for ds in flow.defs_at.values() for d in ds if d.kind != 'param'}
@@ -363,10 +410,12 @@ def effects(fi, keep=(), use_semiring=True):
                                 rename[n.id] = 'free%d' % k
                                 k += 1
 
+    consts = {k: v for k, v in module_constants(fi.module).items() if k not in rename and k not in params}
+
     def cz(x):
         if x is None:
             return None
-        t = canon(_comp_rename(x), params, rename)
+        t = canon(_comp_rename(x), params, rename, consts)
         return semiring(t) if use_semiring else t
     for e in effs:
         ctx = tuple((c[0],) + tuple(cz(x) if isinstance(x, ast.AST) else x for x in c[1:]) for c in e.ctx)
